@@ -49,7 +49,9 @@ def build_world():
     # a model with leaves fixed to non-zero constants by their bounds (reduce / assume have real work to do on it without any argument)
     F = pg.All(pg.AtLeast(2, ["a", "b", puan.variable("k", (1, 1))], variable="FB"),
                pg.AtLeast(4, ["x", "y", puan.variable("t", (3, 3))], variable="FC"), "z", variable="F")
-    return {"M": M, "N": N, "G": G, "K1": K1, "K2": K2, "J1": J1, "J2": J2, "K3": K3, "NG": NG, "F": F}
+    # a compound with an explicit id whose OWN variable is fixed by its construction bounds (what assume / reduce results look like too)
+    PF = pg.All(pg.Any("a", "b", variable=puan.variable("PB", (1, 1))), "c", variable="PFtop")
+    return {"M": M, "N": N, "G": G, "K1": K1, "K2": K2, "J1": J1, "J2": J2, "K3": K3, "NG": NG, "F": F, "PF": PF}
 
 
 INTERPS = {
@@ -157,6 +159,12 @@ def ops_menu():
             if fname != "reduce":
                 add(f"{X}.{fname}>assume[sub=1]", derived(X, first, then_assume))
     add("K3.assume[partial]>evaluate[rule=0]", lambda w: (lambda r: r.evaluate({"X": 0}) if isinstance(r, pg.AtLeast) else r)(w["K3"].assume({"a": 1})))
+    add("PF.negate", lambda w: w["PF"].negate())
+    add("PF.child.negate", lambda w: w["PF"].propositions[0].negate())
+    add("Not(PF)", lambda w: pg.Not(w["PF"]))
+    add("PF.evaluate[total]", lambda w: w["PF"].evaluate({"a": 0, "b": 0, "c": 1}))
+    add("PF.to_text", lambda w: w["PF"].to_text())
+    add("PF.reduce", lambda w: w["PF"].reduce())
     add("F.reduce", lambda w: w["F"].reduce())
     add("F.assume[empty]", lambda w: w["F"].assume({}))
     add("F.assume[partial]", lambda w: w["F"].assume({"a": 1}))
